@@ -388,6 +388,9 @@ func FastForward(b *Bus, e *fx.Net, epoch uint32, beaconID string, keepLogs bool
 	return out, nil
 }
 
+// WatchdogNote is included in the dump (set it to the case descriptor).
+var WatchdogNote atomic.Value
+
 // Watchdog dumps all goroutine stacks to $VERIF_STATS_DIR/wedged-<label>.txt and exits with status 3 when a case runs longer than max.
 // A wedged case is never an oracle: the driver reports exit 2. Call the returned function when the case is over.
 func Watchdog(label string, max time.Duration) func() {
@@ -398,7 +401,8 @@ func Watchdog(label string, max time.Duration) func() {
 		if dir == "" {
 			dir = os.TempDir()
 		}
-		_ = os.WriteFile(fmt.Sprintf("%s/wedged-%s-%d.txt", dir, label, os.Getpid()), buf[:n], 0o644)
+		note, _ := WatchdogNote.Load().(string)
+		_ = os.WriteFile(fmt.Sprintf("%s/wedged-%s-%d.txt", dir, label, os.Getpid()), append([]byte("case: "+note+"\n\n"), buf[:n]...), 0o644)
 		fmt.Fprintf(os.Stderr, "WATCHDOG: case %s still running after %v, goroutine dump written\n", label, max)
 		os.Exit(3)
 	})
